@@ -851,6 +851,12 @@ func (p *Prog) callImpliesPol(fn *ssa.Function, v ssa.Value, re *regexp.Regexp, 
 	if !want {
 		return p.callImpliesFalse(fn, v, re, depth)
 	}
+	return p.callImpliesR(fn, p.R(fn), v, re, depth)
+}
+
+// callImpliesR: like callImplies, with the arguments of the call rendered by r (fn itself, or fn seen as a helper
+// in its caller's terms — so that facts of helpers nested in helpers arrive in the outermost caller's terms).
+func (p *Prog) callImpliesR(fn *ssa.Function, r *Renderer, v ssa.Value, re *regexp.Regexp, depth int) bool {
 	if depth <= 0 {
 		return false
 	}
@@ -868,7 +874,7 @@ func (p *Prog) callImpliesPol(fn *ssa.Function, v ssa.Value, re *regexp.Regexp, 
 	if g == nil || g.Blocks == nil || !isProdPkgFn(g) || g == fn {
 		return false
 	}
-	bind, fix0 := p.bindArgs(fn, call)
+	bind, fix0 := p.bindArgsR(fn, r, call)
 	fix := fix0
 	if g.Parent() == fn {
 		// a local closure: its captured variables ("^x") are the enclosing function's own values
@@ -885,6 +891,14 @@ func (p *Prog) callImpliesPol(fn *ssa.Function, v ssa.Value, re *regexp.Regexp, 
 		if re.MatchString(fix(ef.Fact)) {
 			avoid[ef.Key()] = true
 			n++
+			continue
+		}
+		// the success edge of a nested helper call that itself establishes the fact
+		if depth > 1 && ef.Pred == nil {
+			if v2 := p.successCallOfEdge(ef); v2 != nil && p.callImpliesR(g, gr, v2, re, depth-1) {
+				avoid[ef.Key()] = true
+				n++
+			}
 		}
 	}
 	// exits of g that return a call directly
